@@ -315,6 +315,9 @@ def shape_rule(ctx, short: str) -> None:
     if ok_reshape and ok_shape:
         from ..defuse import norm_chains
 
+        reshaped = sorted({nm for ch in norm_chains(shape_arg.value) for nm, _c in ch if nm in ("flatten", "ravel", "reshape", "squeeze", "T", "transpose", "swapaxes")})
+        ctx.rep.check(not reshaped, rule, c + "/shape-source", "the shape is read from the argument as given",
+                      f"the shape is read from `{show(shape_arg.value)[:50]}`, i.e. after {reshaped}: the result no longer has the shape of the given array (a 2-D argument comes back 1-D / transposed)", where=w)
         conv = any(nm in ("array", "asarray", "asanyarray", "atleast_1d", "atleast_2d") for ch in norm_chains(shape_arg.value) for nm, _c in ch)
         ctx.rep.check(conv, rule, c + "/array-like", "the argument is converted to an array before its shape is read",
                       f"`.shape` is read from `{show(shape_arg.value)[:40]}`, the argument as given: a list of well IDs (any array-like is accepted by the siblings) has no shape - the call fails", where=w)
@@ -344,6 +347,17 @@ def shape_rule(ctx, short: str) -> None:
     flat = flat or (isinstance(it, ast.Attribute) and it.attr == "flat" and is_name(strip_norm(it.value), arg))
     ctx.rep.check(flat, rule, c + "/flatten", "the elements of the flattened argument are mapped one by one",
                   f"the method iterates `{show(it)[:60]}`: for a 2-D argument whole rows (not wells) are mapped - the sibling transforms iterate the flattened array", where=w)
+    if flat and ok_reshape and isinstance(it, ast.Call):
+        # the order in which the elements are read is the order in which the result is laid out again
+        from ..defuse import flatten_order
+
+        read = flatten_order(call_fname(it), it) or "C"
+        laid = "C"
+        for kw_ in val.keywords:
+            if kw_.arg == "order" and isinstance(kw_.value, ast.Constant):
+                laid = kw_.value.value
+        ctx.rep.check(read in ("C", "K", "A") and laid in ("C", "A") or read == laid, rule, c + "/order", "elements are read and laid out in the same order",
+                      f"the argument is read in order {read!r} (`{show(it)[:40]}`) but the result is reshaped in order {laid!r}: for a 2-D argument the i-th result is not the image of the i-th well", where=w)
 
 
 def randomizer(ctx) -> None:
@@ -404,6 +418,9 @@ def randomizer(ctx) -> None:
         if not set(modes) <= {"row", "column"}:
             ctx.rep.inconclusive(rule, c, f"one permutation site serves the modes {sorted(modes)}", where=w)
             continue
+        if isinstance(arg, ast.Subscript) and not isinstance(arg.slice, (ast.Tuple, ast.Slice)) and is_sym(arg.slice, "elem") and call_fname(strip_norm(arg.value)) == "make_well_array":
+            # table[r] of the 2-D table is its whole row r: table[r, :]
+            arg = ast.Subscript(value=arg.value, slice=ast.Tuple(elts=[arg.slice, ast.Slice(lower=None, upper=None, step=None)], ctx=ast.Load()), ctx=ast.Load())
         sliced = isinstance(arg, ast.Subscript) and isinstance(arg.slice, ast.Tuple) and len(arg.slice.elts) == 2
         if mode is not None and (sliced or not is_sym(arg, "elem")):
             ok = sliced
@@ -456,6 +473,20 @@ def randomizer(ctx) -> None:
             zr = fv.res.resolve(z, n.id)
             if not (isinstance(zr, ast.Call) and len(zr.args) == 2):
                 continue
+
+            def _rowform(t):
+                class R(ast.NodeTransformer):
+                    def visit_Subscript(self, m):
+                        self.generic_visit(m)
+                        if not isinstance(m.slice, (ast.Tuple, ast.Slice)) and is_sym(m.slice, "elem") and call_fname(strip_norm(m.value)) == "make_well_array":
+                            return ast.Subscript(value=m.value, slice=ast.Tuple(elts=[m.slice, ast.Slice(lower=None, upper=None, step=None)], ctx=ast.Load()), ctx=ast.Load())
+                        return m
+
+                import copy as _copy
+
+                return R().visit(_copy.deepcopy(t))
+
+            zr = ast.Call(func=zr.func, args=[_rowform(zr.args[0]), _rowform(zr.args[1])], keywords=[])
             k_ok = key(zr.args[0]) == key(arg)
             p_ok = isinstance(zr.args[1], ast.Call) and call_fname(zr.args[1]) in ("permutation", "tolist") and key(arg) in key(zr.args[1])
             swapped = key(zr.args[1]) == key(arg) and isinstance(zr.args[0], ast.Call) and call_fname(zr.args[0]) in ("permutation", "tolist")
